@@ -137,7 +137,37 @@ def reactor_trace(r, label, truth=None, user=-1):
            'limit': L(min(lims)),
            'user': L(usr) if usr else [0, 0],
            'cap': L(0.01)}
-    ev = [{'e': 'Select', 'step': L(r.req_dz)}]
+    ev = []
+    # the gap's entry against the limit of the gap update itself: the largest
+    # step that keeps the self weight of every gap cell non-negative, read
+    # off the real update by unit perturbations (three temperatures of the
+    # range the reactor samples)
+    if getattr(r.core, 'model', None) == 'flow' and \
+            len(r.min_dz['dz']) > len(r.assemblies):
+        from . import opprobe
+        code = float(r.min_dz['dz'][len(r.assemblies)])
+        t_hi = max(float(a._estimated_T_out) for a in r.assemblies)
+        t_lo = float(r.inlet_temp)
+        tl = float('inf')
+        shape = r.core._asm_sc_adj.shape
+        n = r.core.n_sc
+        dzp = max(float(r.req_dz), 1e-6)
+        for T in (t_lo, 0.5 * (t_lo + t_hi), t_hi):
+            with opprobe.saved_state(r.core, ['coolant_gap_temp',
+                                              'coolant_gap_params']):
+                ct = r.core.gap_coolant.temperature
+                r.core._update_coolant_gap_params(T)
+
+                def apply(Tv, Tw):
+                    r.core.coolant_gap_temp = np.array(Tv, dtype=float)
+                    return r.core.coolant_gap_temp + r.core._flow_model(
+                        dzp, np.full(shape, float(Tw)))
+                W, wall, src = opprobe.probe_matrix(n, 0, apply, base=T)
+                tl = min(tl, opprobe.true_limit(W, dzp))
+                r.core._update_coolant_gap_params(ct)
+        ev.append({'e': 'GapLimit', 'code': opprobe.qlen(code),
+                   'true': opprobe.qlen(tl * (1 + 1e-9))})
+    ev.append({'e': 'Select', 'step': L(r.req_dz)})
     for x in r.z[1:]:
         ev.append({'e': 'Plane', 'z': L(x)})
     ev.append({'e': 'End', 'status': 'done'})
